@@ -247,26 +247,47 @@ def secsOf : List WChild → List Section
   | .sec s :: r => s :: secsOf r
   | _ :: r => secsOf r
 
-/-- the children loop of `wrapper.go:456-512 / 805-860`; `prev` = previous child: none / raw / section(fw) -/
+/-- the children loop of `wrapper.go`; `prev` = previous child: none / raw / section(fw) -/
 inductive Prev | none | raw | sec (fw : Bool)
 
-/-- Outlook transition written before a section that follows another section inside a wrapper -/
-def wTrans (forceSec : Bool) : Prev → List Tok
-  | .sec pfw =>
-    if !pfw then [co, c td, c tr, c table, c td, c tr, o tr, o td, o table, o tr, o td, cc]
-    else if forceSec then [co, c td, c tr, o tr, o td, o table, o tr, o td, cc]
-    else [co, c td, c tr, o tr, o td, cc]
-  | _ => []
+/-- how much of the wrapper's Outlook table structure is open at a point of the children loop (`html.MSOWrapper*`): nothing
+    (a wrapper without renderable children writes a complete, empty table), the wrapper table and one of its cells, or a
+    section table inside that cell as well -/
+inductive Depth | none | cell | sec
+deriving DecidableEq, Repr
 
-def wKids (forceRaw forceSec delegated wbgc : Bool) : Prev → List WChild → List Tok
-  | _, [] => []
-  | _, .raw b :: r =>
-    (if forceRaw then [co, c td, c tr, c table, c td, c tr, cc] ++ rawToks b ++ [co, o tr, o td, o table, o tr, o td, cc]
-     else [co, c td, c tr, cc] ++ rawToks b ++ [co, o tr, o td, cc]) ++ wKids forceRaw forceSec delegated wbgc .raw r
-  | prev, .sec s :: r =>
-    wTrans forceSec prev ++
-    emitIW s.fw s.bg (delegated && s.fw && !s.bg && (s.bgc || wbgc)) s.split s.txt s.kids ++
-    wKids forceRaw forceSec delegated wbgc (.sec s.fw) r
+/-- what Outlook's stack holds for a depth (top first) -/
+def Depth.stack : Depth → List Tag
+  | .none => []
+  | .cell => [td, tr, table]
+  | .sec => [td, tr, table, td, tr, table]
+
+/-- close what is open down to the row level of the wrapper table (`msoWrapperRowClose`) -/
+def rowClose : Depth → List Tok
+  | .sec => [c td, c tr, c table, c td, c tr]
+  | .cell => [c td, c tr]
+  | .none => []
+
+/-- open a cell of the wrapper table again, with or without a section table inside -/
+def rowOpen (toSec : Bool) : List Tok := if toSec then [o tr, o td, o table, o tr, o td] else [o tr, o td]
+
+def Depth.ofSec (toSec : Bool) : Depth := if toSec then .sec else .cell
+
+/-- children loop: tokens written and the depth left open.  A raw child stands between two rows: what is open is closed in
+    front of it and opened again behind it.  Between two sections the open depth is closed and a cell (with a section table
+    when the previous section was not full-width, or `forceSec`) is opened. -/
+def wKids (forceSec delegated wbgc : Bool) : Depth → Prev → List WChild → List Tok × Depth
+  | d, _, [] => ([], d)
+  | d, _, .raw b :: r =>
+    let rest := wKids forceSec delegated wbgc d .raw r
+    ((if d = .none then rawToks b
+      else [co] ++ rowClose d ++ [cc] ++ rawToks b ++ [co] ++ rowOpen (decide (d = .sec)) ++ [cc]) ++ rest.1, rest.2)
+  | d, prev, .sec s :: r =>
+    let toSec := match prev with | .sec pfw => !pfw || forceSec | _ => false
+    let d1 := match prev with | .sec _ => Depth.ofSec toSec | _ => d
+    let trans := match prev with | .sec _ => [co] ++ rowClose d ++ rowOpen toSec ++ [cc] | _ => []
+    let rest := wKids forceSec delegated wbgc d1 (.sec s.fw) r
+    (trans ++ emitIW s.fw s.bg (delegated && s.fw && !s.bg && (s.bgc || wbgc)) s.split s.txt s.kids ++ rest.1, rest.2)
 
 def wPre (fw pending : Bool) : List Tok :=
   (if fw then [o table, o tbody, o tr, o td] else []) ++
@@ -276,6 +297,24 @@ def wPre (fw pending : Bool) : List Tok :=
 def wPost (fw : Bool) : List Tok :=
   [c td, c tr, c tbody, c table, c div, co, c td, c tr, c table, cc] ++
   (if fw then [c td, c tr, c tbody, c table] else [])
+
+/-- depth the wrapper opens before its first child -/
+def Wrapper.depth0 (w : Wrapper) : Depth :=
+  let secs := secsOf w.kids
+  let firstBgc := match secs with | s :: _ => s.bgc | [] => false
+  let split := secs.any (·.fw)
+  let msoBg := firstBgc || (split && w.bgc)
+  let outerOnly := !secs.isEmpty && secs.all (fun s => s.fw && s.bg)
+  let renderable := w.kids.any (fun c => match c with | .sec _ => true | .raw b => !b)
+  if !renderable then .none else if outerOnly || (split && msoBg) then .cell else .sec
+
+def Depth.openToks : Depth → List Tok
+  | .none => [co, o table, c table, cc]
+  | .cell => [co, o table, o tr, o td, cc]
+  | .sec => [co, o table, o tr, o td, o table, o tr, o td, cc]
+
+/-- `RenderMSOWrapperClose`: close exactly what is open -/
+def Depth.closeToks (d : Depth) : List Tok := if d = .none then [] else [co] ++ rowClose d ++ [c table, cc]
 
 /-- the Outlook part of a wrapper between its own cell and its closing -/
 def Wrapper.mid (w : Wrapper) : List Tok :=
@@ -287,16 +326,8 @@ def Wrapper.mid (w : Wrapper) : List Tok :=
   let renderable := w.kids.any (fun c => match c with | .sec _ => true | .raw b => !b)
   let delegated := renderable && !outerOnly && split && msoBg
   let forceSec := if w.fw then false else delegated && w.bgc
-  let forceRaw := if w.fw then true else forceSec || !delegated
-  let closedByChild := secs.any (fun s => s.fw && s.bg)
-  (if !renderable then [co, o table, c table, cc]
-   else if outerOnly || (split && msoBg) then [co, o table, o tr, o td, cc]
-   else [co, o table, o tr, o td, o table, o tr, o td, cc]) ++
-  wKids forceRaw forceSec delegated w.bgc .none w.kids ++
-  (if closedByChild then [co, c td, c tr, c table, cc]
-   else if !renderable then []
-   else if outerOnly then [co, c td, c tr, c table, cc]
-   else [co, c td, c tr, c table, c td, c tr, c table, cc])
+  let k := wKids forceSec delegated w.bgc w.depth0 .none w.kids
+  w.depth0.openToks ++ k.1 ++ k.2.closeToks
 
 def Wrapper.toks (w : Wrapper) (pending : Bool) : List Tok := wPre w.fw pending ++ w.mid ++ wPost w.fw
 
@@ -343,24 +374,15 @@ def bodyLoop (bs : List Block) (p : Bool) : List Tok := join [] (blockOuts bs p)
 
 def render (bs : List Block) : List Tok := [o div] ++ bodyLoop bs false ++ [c div]
 
-/-- a wrapper the Outlook hand-over handles: sections that are not full-width (background images allowed) and raws, not only
-    blank raws -/
-def Wrapper.tame (w : Wrapper) : Prop :=
-  (∀ s ∈ secsOf w.kids, s.fw = false) ∧
-  (w.kids = [] ∨ w.kids.any (fun c => match c with | .sec _ => true | .raw b => !b) = true)
-
-/-- the tame fragment: while the Outlook comment is pending only a non-full-width section or wrapper may
-    follow; wrappers are tame.  Since `body.go` looks at the next sibling before letting a section leave the comment open,
-    the first condition holds for every body (`tame_of_wrappers`); only the wrapper hand-over remains a hypothesis. -/
+/-- the fragment the body loop keeps to: while the Outlook comment is pending only a non-full-width section or wrapper may
+    follow.  Since `body.go` looks at the next sibling before letting a section leave the comment open, this holds for every
+    body (`tame_all`); wrappers of every configuration are handled (`wrapper_run`). -/
 def Tame : List Block → Bool → Prop
   | [], _ => True
   | .section s :: rest, p => (p = true → s.fw = false) ∧ Tame rest (s.emit p (nextConsumes rest)).2
-  | .wrapper w :: rest, p => (p = true → w.fw = false) ∧ w.tame ∧ Tame rest false
+  | .wrapper w :: rest, p => (p = true → w.fw = false) ∧ Tame rest false
   | .raw true :: rest, p => Tame rest p                          -- a blank raw writes nothing
   | _ :: rest, p => p = false ∧ Tame rest p
-
-/-- every wrapper of the body is one the Outlook hand-over handles -/
-def WrappersTame (bs : List Block) : Prop := ∀ b ∈ bs, match b with | .wrapper w => w.tame | _ => True
 
 
 /-! ### proofs: closed evaluation + frame lemma -/
@@ -616,100 +638,153 @@ theorem raw_block_neutral (b : Bool) : Neutral (if b then [] else [o Tag.para, t
   · simpa using frame0 [o Tag.para, t, c Tag.para] false false [] [] (by rfl) sd al
   · rfl
 
-/-- Outlook's stack inside a (non-delegated) wrapper: inner table cell on top of outer table cell -/
-def w6 : List Tag := [td, tr, table, td, tr, table]
-
-theorem emitIW_plain (split txt : Bool) (kids : List SChild) :
-    emitIW false false false split txt kids = innerToks false split txt kids := by
-  simp [emitIW]
-
-/-- a section that is not full-width, inside a wrapper that did not delegate its background: neutral, with or without a
-    background image (the VML opening and closing each sit in their own conditional) -/
-theorem emitIW_nfw_neutral (bg split txt : Bool) (kids : List SChild) : Neutral (emitIW false bg false split txt kids) := by
+/-- a section inside a wrapper is neutral whatever its configuration: full-width or not, with or without a background
+    image -/
+theorem emitIW_neutral0 (fw bg split txt : Bool) (kids : List SChild) : Neutral (emitIW fw bg false split txt kids) := by
   intro sd al
-  cases bg
-  · rw [emitIW_plain]; exact inner_neutral _ _ _ _ sd al
-  · have : emitIW false true false split txt kids =
-        [co, o vrect, v vfill, o vtextbox, cc] ++ innerToks true split txt kids ++ [co, c vtextbox, c vrect, cc] := by
-      simp [emitIW]
-    rw [this]
-    exact sandwich _ _ _ false false _ _ (by rfl) (inner_neutral _ _ _ _) (by rfl) sd al
+  have hin := inner_neutral bg split txt kids
+  cases fw <;> cases bg
+  all_goals
+    simp only [emitIW, Bool.false_eq_true, if_false, if_true, Bool.and_true, Bool.and_false, Bool.not_true, Bool.not_false,
+      List.nil_append, List.append_nil, List.append_assoc]
+  · exact hin sd al
+  · exact sandwich [co, o vrect, v vfill, o vtextbox, cc] _ [co, c vtextbox, c vrect, cc] false false _ _ (by rfl) hin (by rfl) sd al
+  · have := sandwich [o table, o tbody, o tr, o td] _ [c td, c tr, c tbody, c table] false false _ _ (by rfl) hin (by rfl) sd al
+    simpa [List.append_assoc] using this
+  · have := sandwich ([o table, o tbody, o tr, o td] ++ [co, o vrect, v vfill, o vtextbox, o table, o tr, o td, cc]) _
+      ([co, c td, c tr, c table, c vtextbox, c vrect, cc] ++ [c td, c tr, c tbody, c table]) false false _ _ (by rfl) hin (by rfl) sd al
+    simpa [List.append_assoc] using this
 
-/-- children of a tame wrapper keep Outlook's two wrapper cells on the stack -/
-theorem wKids_run (wbgc : Bool) : ∀ (kids : List WChild) (prev : Prev) (sd al : List Tag),
-    (∀ s ∈ secsOf kids, s.fw = false) → (∀ pfw, prev = .sec pfw → pfw = false) →
-    run ⟨false, sd, w6 ++ al⟩ (wKids true false false wbgc prev kids) = some ⟨false, sd, w6 ++ al⟩
-  | [], _, sd, al, _, _ => rfl
-  | .raw b :: r, prev, sd, al, hs, _ => by
-    simp only [wKids, ite_true]
+/-- … and a full-width section without a background image that carries the background table delegated by the wrapper -/
+theorem emitIW_neutral1 (split txt : Bool) (kids : List SChild) : Neutral (emitIW true false true split txt kids) := by
+  intro sd al
+  have hin := inner_neutral false split txt kids
+  simp only [emitIW, Bool.false_eq_true, if_false, if_true, Bool.and_true, Bool.and_false, Bool.not_true, Bool.not_false,
+    List.nil_append, List.append_nil, List.append_assoc]
+  have := sandwich ([o table, o tbody, o tr, o td] ++ [co, o table, o tr, o td, cc]) _
+    ([co, c td, c tr, c table, cc] ++ [c td, c tr, c tbody, c table]) false false _ _ (by rfl) hin (by rfl) sd al
+  simpa [List.append_assoc] using this
+
+/-- the background table is delegated only to full-width sections without a background image: every section the children
+    loop writes is neutral -/
+theorem emitIW_neutral (fw bg dl x split txt : Bool) (kids : List SChild) :
+    Neutral (emitIW fw bg (dl && fw && !bg && x) split txt kids) := by
+  cases h : (dl && fw && !bg && x)
+  · exact emitIW_neutral0 fw bg split txt kids
+  · have hfw : fw = true := by cases fw <;> simp_all
+    have hbg : bg = false := by cases bg <;> simp_all
+    subst hfw; subst hbg
+    exact emitIW_neutral1 split txt kids
+
+/-- no child that writes anything: what a wrapper without renderable children holds -/
+def onlyBlank (kids : List WChild) : Prop := ∀ c ∈ kids, c = .raw true
+
+/-- between two rows: from any open depth to a fresh cell (with or without a section table) -/
+theorem trans_run (d : Depth) (hd : d ≠ .none) (toSec : Bool) (sd al : List Tag) :
+    run ⟨false, sd, d.stack ++ al⟩ ([co] ++ rowClose d ++ rowOpen toSec ++ [cc]) = some ⟨false, sd, (Depth.ofSec toSec).stack ++ al⟩ := by
+  cases d <;> cases toSec
+  all_goals first
+    | (exfalso; exact hd rfl)
+    | exact frameA _ _ _ (by rfl) sd al
+
+/-- **children loop of a wrapper**: started with `d.stack` on Outlook's stack (and, when nothing is open, only blank raws to
+    come), the loop ends in standard mode with exactly the stack of the depth it reports -/
+theorem wKids_run (fs dl wb : Bool) : ∀ (kids : List WChild) (d : Depth) (prev : Prev) (sd al : List Tag),
+    (d = .none → onlyBlank kids) →
+    run ⟨false, sd, d.stack ++ al⟩ (wKids fs dl wb d prev kids).1 = some ⟨false, sd, (wKids fs dl wb d prev kids).2.stack ++ al⟩
+  | [], d, _, sd, al, _ => by simp [wKids, run]
+  | .raw b :: r, d, prev, sd, al, hb => by
+    simp only [wKids]
     rw [run_append]
-    have := sandwich' [co, c td, c tr, c table, c td, c tr, cc] (rawToks b) [co, o tr, o td, o table, o tr, o td, cc]
-          false false [] w6 [] [table] [] w6 (by rfl) (rawToks_neutral b) (by rfl) sd al
-    simp only [List.nil_append] at this
-    rw [this]
+    have ih := wKids_run fs dl wb r d .raw sd al (fun h c hc => hb h c (List.mem_cons_of_mem _ hc))
+    have hhere : run ⟨false, sd, d.stack ++ al⟩
+        (if d = .none then rawToks b else [co] ++ rowClose d ++ [cc] ++ rawToks b ++ [co] ++ rowOpen (decide (d = .sec)) ++ [cc]) =
+        some ⟨false, sd, d.stack ++ al⟩ := by
+      cases d
+      · simp only [if_true]; exact rawToks_neutral b sd _
+      · have := sandwich' [co, c td, c tr, cc] (rawToks b) [co, o tr, o td, cc] false false [] [td, tr, table] [] [table] []
+          [td, tr, table] (by rfl) (rawToks_neutral b) (by rfl) sd al
+        simpa [rowClose, rowOpen, Depth.stack, List.append_assoc] using this
+      · have := sandwich' [co, c td, c tr, c table, c td, c tr, cc] (rawToks b) [co, o tr, o td, o table, o tr, o td, cc] false false []
+          [td, tr, table, td, tr, table] [] [table] [] [td, tr, table, td, tr, table] (by rfl) (rawToks_neutral b) (by rfl) sd al
+        simpa [rowClose, rowOpen, Depth.stack, List.append_assoc] using this
+    rw [hhere]
     simp only [Option.bind_some]
-    exact wKids_run wbgc r .raw sd al (by simpa [secsOf] using hs) (by intro pfw h; cases h)
-  | .sec s :: r, prev, sd, al, hs, hprev => by
-    have hsf := hs s (by simp [secsOf])
+    exact ih
+  | .sec s :: r, d, prev, sd, al, hb => by
+    have hd : d ≠ .none := by
+      intro h
+      have := hb h (.sec s) (List.mem_cons_self ..)
+      cases this
     simp only [wKids]
     rw [run_append, run_append]
-    have htrans : run ⟨false, sd, w6 ++ al⟩ (wTrans false prev) = some ⟨false, sd, w6 ++ al⟩ := by
-      cases prev with
-      | none => rfl
-      | raw => rfl
-      | sec pfw =>
-        have := hprev pfw rfl; subst this
-        simpa [wTrans] using frameA [co, c td, c tr, c table, c td, c tr, o tr, o td, o table, o tr, o td, cc] w6 w6 (by rfl) sd al
-    rw [htrans]
-    simp only [Option.bind_some]
-    rw [hsf]
-    simp only [Bool.false_and, Bool.and_false]
-    rw [emitIW_nfw_neutral]
-    simp only [Option.bind_some]
-    exact wKids_run wbgc r (.sec false) sd al (fun s' hs' => hs s' (by simp [secsOf, hs']))
-      (by intro pfw h; cases h; rfl)
+    cases prev with
+    | none =>
+      simp only [List.nil_append, run, Option.bind_some]
+      rw [emitIW_neutral]
+      simp only [Option.bind_some]
+      exact wKids_run fs dl wb r d (.sec s.fw) sd al (fun h => absurd h hd)
+    | raw =>
+      simp only [List.nil_append, run, Option.bind_some]
+      rw [emitIW_neutral]
+      simp only [Option.bind_some]
+      exact wKids_run fs dl wb r d (.sec s.fw) sd al (fun h => absurd h hd)
+    | sec pfw =>
+      simp only []
+      rw [trans_run d hd (!pfw || fs) sd al]
+      simp only [Option.bind_some]
+      rw [emitIW_neutral]
+      simp only [Option.bind_some]
+      exact wKids_run fs dl wb r (Depth.ofSec (!pfw || fs)) (.sec s.fw) sd al
+        (fun h => by cases hx : (!pfw || fs) <;> simp [Depth.ofSec, hx] at h)
 
-theorem secs_any_fw (kids : List WChild) (h : ∀ s ∈ secsOf kids, s.fw = false) :
-    (secsOf kids).any (·.fw) = false := by
-  simp only [List.any_eq_false]; intro s hs; simp [h s hs]
+theorem cell_or_sec_ne_none (c : Bool) : (if c = true then Depth.cell else Depth.sec) ≠ Depth.none := by
+  cases c <;> simp
 
-theorem secs_any_fwbg (kids : List WChild) (h : ∀ s ∈ secsOf kids, s.fw = false) :
-    (secsOf kids).any (fun s => s.fw && s.bg) = false := by
-  simp only [List.any_eq_false]; intro s hs; simp [h s hs]
+theorem depth0_none (w : Wrapper) (h : w.depth0 = .none) : onlyBlank w.kids := by
+  unfold Wrapper.depth0 at h
+  simp only [] at h
+  by_cases hr : (w.kids.any fun c => match c with | .sec _ => true | .raw b => !b) = true
+  · exfalso
+    rw [hr] at h
+    simp only [Bool.not_true, Bool.false_eq_true, if_false] at h
+    exact cell_or_sec_ne_none _ h
+  · intro c hc
+    have hf : (w.kids.any fun c => match c with | .sec _ => true | .raw b => !b) = false := by simpa using hr
+    rw [List.any_eq_false] at hf
+    have hcc := hf c hc
+    cases c with
+    | sec s => simp at hcc
+    | raw b => cases b <;> simp at hcc ⊢
 
-theorem secs_outer (kids : List WChild) (h : ∀ s ∈ secsOf kids, s.fw = false) :
-    (!(secsOf kids).isEmpty && (secsOf kids).all (fun s => s.fw && s.bg)) = false := by
-  cases hk : secsOf kids with
-  | nil => simp
-  | cons s r =>
-    have := h s (by simp [hk])
-    simp [this]
-
-/-- the Outlook part of a tame wrapper is neutral -/
-theorem mid_neutral (w : Wrapper) (ht : w.tame) : Neutral w.mid := by
-  obtain ⟨hsec, hrend⟩ := ht
+/-- **the Outlook part of every wrapper is neutral**: whatever mix of sections (full-width or not, background image or
+    colour or none) and raw content (blank or not) it holds -/
+theorem mid_neutral (w : Wrapper) : Neutral w.mid := by
   intro sd al
   unfold Wrapper.mid
-  simp only [secs_any_fw w.kids hsec, secs_any_fwbg w.kids hsec, secs_outer w.kids hsec, Bool.false_and, Bool.and_false,
-    Bool.or_false, Bool.false_eq_true, ite_false, Bool.not_false, ite_self]
-  rcases hrend with hnil | hr
-  · rw [hnil]
-    simpa [wKids] using frame0 [co, o table, c table, cc] false false [] [] (by rfl) sd al
-  · simp only [hr, Bool.not_true, Bool.false_eq_true, ite_false]
-    have hfr : (if w.fw = true then true else false || true) = true := by cases w.fw <;> rfl
-    rw [hfr, run_append, run_append]
-    rw [show run ⟨false, sd, al⟩ [co, o table, o tr, o td, o table, o tr, o td, cc] = some ⟨false, sd, w6 ++ al⟩ from by
-      simpa using frame0 [co, o table, o tr, o td, o table, o tr, o td, cc] false false [] w6 (by rfl) sd al]
-    simp only [Option.bind_some]
-    rw [wKids_run w.bgc w.kids .none sd al hsec (by intro pfw h; cases h)]
-    simp only [Option.bind_some]
-    simpa using frameA [co, c td, c tr, c table, c td, c tr, c table, cc] w6 [] (by rfl) sd al
+  simp only []
+  rw [run_append, run_append]
+  have hopen : run ⟨false, sd, al⟩ w.depth0.openToks = some ⟨false, sd, w.depth0.stack ++ al⟩ := by
+    cases w.depth0
+    · simpa [Depth.stack, Depth.openToks] using frame0 [co, o table, c table, cc] false false [] [] (by rfl) sd al
+    · simpa [Depth.stack, Depth.openToks] using frame0 [co, o table, o tr, o td, cc] false false [] [td, tr, table] (by rfl) sd al
+    · simpa [Depth.stack, Depth.openToks] using frame0 [co, o table, o tr, o td, o table, o tr, o td, cc] false false [] [td, tr, table, td, tr, table] (by rfl) sd al
+  rw [hopen]
+  simp only [Option.bind_some]
+  rw [wKids_run _ _ _ w.kids w.depth0 .none sd al (depth0_none w)]
+  simp only [Option.bind_some]
+  generalize (wKids _ _ _ w.depth0 .none w.kids).2 = dn
+  cases dn
+  · simp [Depth.closeToks, Depth.stack, run]
+  · simpa [Depth.closeToks, Depth.stack, rowClose] using frameA [co, c td, c tr, c table, cc] [td, tr, table] [] (by rfl) sd al
+  · simpa [Depth.closeToks, Depth.stack, rowClose] using
+      frameA [co, c td, c tr, c table, c td, c tr, c table, cc] [td, tr, table, td, tr, table] [] (by rfl) sd al
 
-/-- a tame wrapper consumes a pending comment (if any), restores both stacks and ends in standard mode -/
-theorem wrapper_run (w : Wrapper) (p : Bool) (hp : p = true → w.fw = false) (ht : w.tame) (sd al : List Tag) :
+/-- a wrapper of any configuration consumes a pending comment (if any), restores both stacks and ends in standard mode -/
+theorem wrapper_run (w : Wrapper) (p : Bool) (hp : p = true → w.fw = false) (sd al : List Tag) :
     run ⟨p, sd, al⟩ (w.toks p) = some ⟨false, sd, al⟩ := by
   unfold Wrapper.toks
-  have hk := mid_neutral w ht
+  have hk := mid_neutral w
   cases hfw : w.fw <;> cases p <;>
     first
     | (exfalso; simp [hfw] at hp; done)
@@ -737,9 +812,9 @@ theorem flat_run : ∀ (bs : List Block) (p : Bool) (sd al : List Tag),
     exact flat_run rest _ sd al ht.2 (secLeave_next s p rest)
   | .wrapper w :: rest, p, sd, al, ht, _ => by
     simp only [bodyFlat, blockOuts, List.flatten_cons]
-    rw [run_append, wrapper_run w p ht.1 ht.2.1 sd al]
+    rw [run_append, wrapper_run w p ht.1 sd al]
     simp only [Option.bind_some]
-    exact flat_run rest false sd al ht.2.2 (by simp)
+    exact flat_run rest false sd al ht.2 (by simp)
   | .hero ls :: rest, p, sd, al, ht, _ => by
     obtain ⟨hp0, ht'⟩ := ht
     subst hp0
@@ -831,35 +906,34 @@ theorem body_run (bs : List Block) (p : Bool) (sd al : List Tag)
   apply join_run
   simpa [bodyFlat] using flat_run bs p sd al ht hp
 
-/-- since the body only lets a section leave the comment open in front of a block that continues it, every body whose wrappers
-    are tame is in the tame fragment -/
-theorem tame_of_wrappers : ∀ (bs : List Block) (p : Bool), WrappersTame bs → (p = true → nextConsumes bs = true) → Tame bs p
-  | [], _, _, _ => trivial
-  | .section s :: rest, p, hw, hp => by
+/-- every body keeps to the fragment: `body.go` looks at the next sibling before a section leaves the comment open -/
+theorem tame_all : ∀ (bs : List Block) (p : Bool), (p = true → nextConsumes bs = true) → Tame bs p
+  | [], _, _ => trivial
+  | .section s :: rest, p, hp => by
     refine ⟨fun h => by simpa [nextConsumes] using hp h, ?_⟩
-    exact tame_of_wrappers rest _ (fun b hb => hw b (List.mem_cons_of_mem _ hb)) (secLeave_next s p rest)
-  | .wrapper w :: rest, p, hw, hp => by
-    refine ⟨fun h => by simpa [nextConsumes] using hp h, hw (.wrapper w) (List.mem_cons_self ..), ?_⟩
-    exact tame_of_wrappers rest false (fun b hb => hw b (List.mem_cons_of_mem _ hb)) (by simp)
-  | .hero ls :: rest, p, hw, hp => by
+    exact tame_all rest _ (secLeave_next s p rest)
+  | .wrapper w :: rest, p, hp => by
+    refine ⟨fun h => by simpa [nextConsumes] using hp h, ?_⟩
+    exact tame_all rest false (by simp)
+  | .hero ls :: rest, p, hp => by
     have hp0 : p = false := by
       cases p
       · rfl
       · simp [nextConsumes] at hp
-    exact ⟨hp0, by subst hp0; exact tame_of_wrappers rest false (fun b hb => hw b (List.mem_cons_of_mem _ hb)) (by simp)⟩
-  | .raw true :: rest, p, hw, hp => by
+    exact ⟨hp0, by subst hp0; exact tame_all rest false (by simp)⟩
+  | .raw true :: rest, p, hp => by
     have hp0 : p = false := by
       cases p
       · rfl
       · simp [nextConsumes] at hp
     subst hp0
-    exact tame_of_wrappers rest false (fun b hb => hw b (List.mem_cons_of_mem _ hb)) (by simp)
-  | .raw false :: rest, p, hw, hp => by
+    exact tame_all rest false (by simp)
+  | .raw false :: rest, p, hp => by
     have hp0 : p = false := by
       cases p
       · rfl
       · simp [nextConsumes] at hp
-    exact ⟨hp0, by subst hp0; exact tame_of_wrappers rest false (fun b hb => hw b (List.mem_cons_of_mem _ hb)) (by simp)⟩
+    exact ⟨hp0, by subst hp0; exact tame_all rest false (by simp)⟩
 
 /-- **C02 ∧ C03 on the tame fragment of the whole layout model** (sections with any mix of columns, groups
     and raws; full-width and background-image sections; tame wrappers; heroes; raws; Outlook-comment
@@ -873,10 +947,10 @@ theorem C02_C03_tame (bs : List Block) (h : Tame bs false) : WF (render bs) := b
   rw [body_run bs false [div] [div] h (by simp)]
   rfl
 
-/-- … which is every body whose wrappers are tame: any sequence of sections (full-width, background image, chaining or not),
-    heroes and raws is well formed for both kinds of client -/
-theorem C02_C03_all (bs : List Block) (hw : WrappersTame bs) : WF (render bs) :=
-  C02_C03_tame bs (tame_of_wrappers bs false hw (by simp))
+/-- … which is every body: any sequence of sections (full-width, background image, chaining or not), wrappers of every
+    configuration, heroes and raws is well formed for both kinds of client -/
+theorem C02_C03_all (bs : List Block) : WF (render bs) :=
+  C02_C03_tame bs (tame_all bs false (by simp))
 
 
 /-- non-vacuity: chaining section, multi-column section with a group and a raw, a wrapper, a hero -/
@@ -884,7 +958,7 @@ example : Tame [.section ⟨false, false, false, false, false, false, [.col ⟨f
                 .wrapper ⟨false, true, [.sec ⟨false, false, false, false, true, false, [.col ⟨false, [.text]⟩]⟩, .raw false,
                                         .sec ⟨false, false, true, false, false, false, [.col ⟨false, [.text]⟩]⟩]⟩,
                 .section ⟨true, true, false, false, false, false, [.col ⟨false, [.text]⟩]⟩, .hero [.text]] false := by
-  simp [Tame, Wrapper.tame, secsOf, Section.emit, emitToks, secLeave, nextConsumes]
+  simp [Tame, Section.emit, emitToks, secLeave, nextConsumes]
 
 /-- the classes repaired in body.go (section in front of a full-width section, of a hero, of raw content) are well formed now -/
 example : WF (render [.section ⟨false, false, false, false, false, false, [.col ⟨false, [.text]⟩]⟩,
@@ -897,10 +971,13 @@ example : WF (render [.section ⟨false, false, false, false, false, false, [.co
                       .section ⟨false, false, false, false, false, false, [.col ⟨false, [.text]⟩]⟩]) := by
   unfold WF; decide
 
-/-- the full statements are still false of the code — kernel-checked counterexamples, one per recorded class (all inside
-    wrappers: the wrapper <-> section Outlook hand-over) -/
-example : ¬ WF (render [.wrapper ⟨false, false, [.sec ⟨true, false, false, false, true, false, [.col ⟨false, [.text]⟩]⟩]⟩]) := by
+/-- the wrapper classes repaired in wrapper.go (a full-width coloured section inside a wrapper; a wrapper holding only a
+    blank raw; a background-image section next to a plain one) are well formed now -/
+example : WF (render [.wrapper ⟨false, false, [.sec ⟨true, false, false, false, true, false, [.col ⟨false, [.text]⟩]⟩]⟩]) := by
   unfold WF; decide
-example : ¬ WF (render [.wrapper ⟨false, false, [.raw true]⟩]) := by
+example : WF (render [.wrapper ⟨false, false, [.raw true]⟩]) := by
+  unfold WF; decide
+example : WF (render [.wrapper ⟨false, true, [.sec ⟨false, false, false, false, false, false, [.col ⟨false, [.text]⟩]⟩, .raw false,
+                                              .sec ⟨true, true, false, false, false, false, [.col ⟨false, [.text]⟩]⟩]⟩]) := by
   unfold WF; decide
 end Gomjml.Layout
